@@ -101,7 +101,7 @@ enum Shp {
 	Const,
 	Up,
 	Down,
-	/// golden-ratio Weyl sequence: every value new, the extremum leaves the window at irregular ages
+	/// golden-ratio Weyl sequence on 1024 levels: hardly any ties, the extremum leaves the window at irregular ages
 	VolFine,
 	/// the same quantised to 8 levels: ties and plateaus at irregular distances
 	VolCoarse,
@@ -165,7 +165,8 @@ impl System for SegSys {
 				Shp::Const => n.cur,
 				Shp::Up => n.cur + 1.0,
 				Shp::Down => n.cur - 1.0,
-				Shp::VolFine => (w * 64.0 - 32.0) as ValueType as f64,
+				// 1024 levels, multiples of 1/16: differences and two-value means are exact in f32 as well
+				Shp::VolFine => (w * 1024.0).floor() / 16.0 - 32.0,
 				Shp::VolCoarse => (w * 8.0).floor() - 4.0,
 			};
 			let i = In::V(n.cur as ValueType);
